@@ -22,10 +22,6 @@ mcvars == <<vars, cnt>>
 
 CapPairs == IF 2 \in LaneSet THEN CapSet \X CapSet ELSE {<<c, 0>> : c \in CapSet}
 
-ConsumerCalls == (IF "Get" \in GetKinds THEN {OpGet} ELSE {})
-                 \cup (IF "GetNoWait" \in GetKinds THEN {OpGetNoWait} ELSE {})
-                 \cup (IF "GetTimeout" \in GetKinds THEN {OpGetTimeout(T) : T \in TSet} ELSE {})
-
 MCInit == /\ \E c \in CapPairs : DInit(c)
           /\ PInit
           /\ cnt = [p \in MCProc |-> 0]
@@ -34,21 +30,51 @@ Start(p, o) == Invoke(p, o) /\ cnt' = [cnt EXCEPT ![p] = @ + 1]
 
 TimedGetRunning == \E p \in MCProc : pc[p] \in {"gt_try", "gt_sleep"}
 
+\* one named action per call kind and per critical section, so that -coverage
+\* reports each of them (an action never taken in ANY configuration is vacuity)
+NextElem(p) == <<p, cnt[p] + 1>>
+CallPut(p)        == cnt[p] < NE /\ \E k \in LaneSet : Start(p, OpPut(k, NextElem(p)))
+CallPutForce(p)   == cnt[p] < NE /\ \E k \in LaneSet : Start(p, OpPutForce(k, NextElem(p)))
+CallGet(p)        == cnt[p] < NOps /\ "Get" \in GetKinds /\ Start(p, OpGet)
+CallGetNoWait(p)  == cnt[p] < NOps /\ "GetNoWait" \in GetKinds /\ Start(p, OpGetNoWait)
+CallGetTimeout(p) == cnt[p] < NOps /\ "GetTimeout" \in GetKinds /\ \E T \in TSet : Start(p, OpGetTimeout(T))
+CallClear(p)      == cnt[p] < NAdmin /\ Start(p, OpClear)
+CallSetCap(p)     == cnt[p] < NAdmin /\ \E c \in CapPairs : c # cap /\ Start(p, OpSetCap(c))
+
+DoPut(p)        == PutStep(p) /\ UNCHANGED cnt
+DoPutForce(p)   == PutForceStep(p) /\ UNCHANGED cnt
+DoGet(p)        == GetStep(p) /\ UNCHANGED cnt
+DoGetRecheck(p) == GetRecheck(p) /\ UNCHANGED cnt
+DoGetNoWait(p)  == GetNoWaitStep(p) /\ UNCHANGED cnt
+DoGtTry(p)      == GtTry(p) /\ UNCHANGED cnt
+DoGtWake(p)     == GtWake(p) /\ UNCHANGED cnt
+DoClear(p)      == ClearStep(p) /\ UNCHANGED cnt
+DoSetCap(p)     == SetCapStep(p) /\ UNCHANGED cnt
+DoTick          == clock < MaxClock /\ TimedGetRunning /\ Tick /\ UNCHANGED cnt
+
 MCNext ==
-  \/ \E p \in Producer : /\ cnt[p] < NE
-                         /\ \E k \in LaneSet : \/ Start(p, OpPut(k, <<p, cnt[p] + 1>>))
-                                               \/ Start(p, OpPutForce(k, <<p, cnt[p] + 1>>))
-  \/ \E p \in Consumer : cnt[p] < NOps /\ \E o \in ConsumerCalls : Start(p, o)
-  \/ \E p \in Admin : /\ cnt[p] < NAdmin
-                      /\ \/ Start(p, OpClear)
-                         \/ \E c \in CapPairs : c # cap /\ Start(p, OpSetCap(c))
-  \/ \E p \in MCProc : Step(p) /\ UNCHANGED cnt
-  \/ clock < MaxClock /\ TimedGetRunning /\ Tick /\ UNCHANGED cnt
+  \/ \E p \in Producer : CallPut(p)
+  \/ \E p \in Producer : CallPutForce(p)
+  \/ \E p \in Consumer : CallGet(p)
+  \/ \E p \in Consumer : CallGetNoWait(p)
+  \/ \E p \in Consumer : CallGetTimeout(p)
+  \/ \E p \in Admin : CallClear(p)
+  \/ \E p \in Admin : CallSetCap(p)
+  \/ \E p \in MCProc : DoPut(p)
+  \/ \E p \in MCProc : DoPutForce(p)
+  \/ \E p \in MCProc : DoGet(p)
+  \/ \E p \in MCProc : DoGetRecheck(p)
+  \/ \E p \in MCProc : DoGetNoWait(p)
+  \/ \E p \in MCProc : DoGtTry(p)
+  \/ \E p \in MCProc : DoGtWake(p)
+  \/ \E p \in MCProc : DoClear(p)
+  \/ \E p \in MCProc : DoSetCap(p)
+  \/ DoTick
 
 MCSpec == MCInit /\ [][MCNext]_mcvars
 
 \* weak fairness of the woken consumer's re-check only: nothing else is assumed to ever run
-MCLiveSpec == MCSpec /\ \A p \in Consumer : WF_mcvars(GetRecheck(p) /\ UNCHANGED cnt)
+MCLiveSpec == MCSpec /\ \A p \in Consumer : WF_mcvars(DoGetRecheck(p))
 
 AllStepProps == [][StepProps]_mcvars
 
